@@ -313,6 +313,10 @@ func minI64(a, b int64) int64 {
 }
 
 func c19Copies(c *Ctx, bc *bsiCase) {
+	if c.Prop != "C19" {
+		// the copy / serialization clauses belong to C19 only (C12 reuses the update histories for their goroutine paths)
+		return
+	}
 	r := c.R
 	x := bc.x
 	neg := ""
